@@ -73,6 +73,16 @@ Step(q) ==
              impl_ok |-> q.post = (IF dupname THEN q.tail ELSE Append(q.tail, q.e)),   \* StoreImpl
              stable |-> \A s \in LiveStrings : FindImplIn(q.post, s) = MinOf(OwnerMap[s])]  \* ShippedStable
 
+    [] q.k = "dbop" ->
+         \* q: [op, name, outcome, e (entry of the adsorbate operated on), pre / post (registry as name sequences),
+         \*     sweep << [site, s, before, after] >> (lookup results, as adsorbate names, before and after the operation)]
+         LET affected(s) == s \in Eff(q.e)
+             moved == {i \in DOMAIN q.sweep : q.sweep[i].before # q.sweep[i].after
+                                               /\ (q.outcome = "refused" \/ ~affected(q.sweep[i].s))}
+         IN [ok |-> DbStepSpec(q.op, q.name, q.outcome, q.pre, q.post),
+             lookups_changed |-> SetToSeq({q.sweep[i] : i \in moved}),
+             shipped_prefix_kept |-> (q.outcome = "refused") => (Len(q.post) >= NLive /\ \A i \in 1..NLive : q.post[i] = Live[i].name)]
+
 ASSUME JsonSerialize(IOEnv.X_OUT, [i \in 1..Len(Q) |-> Step(Q[i])])
 VARIABLE x
 Init == x = 0
